@@ -88,6 +88,11 @@ impl Next<f64> for EfficiencyRatio {
             previous = *n;
         }
 
+        if volatility == 0.0 {
+            // No movement at all inside the window: avoid 0/0
+            return 1.0;
+        }
+
         (first - input).abs() / volatility
     }
 }
